@@ -74,13 +74,16 @@ class ModelServer:
         data = data if isinstance(data, SBytes) else SBytes(data)
         rng = (headers or {}).get("Range")
         status = 200
+        hdrs = {}
         if rng:
+            total = len(data)
             a, b = rng.split("=")[1].split("-")
             a, b = int(a), int(b)
             if a >= len(data) and not (a == 0 and len(data) == 0):
                 return Response(416, b"", url)
             data = data[a:b + 1]
             status = 206
+            # a misbehaving server is at least honest about what it sends: Content-Range describes the body
             if fault == "short" and len(data):
                 data = data[:len(data) - 1]
             elif fault == "long":
@@ -89,8 +92,13 @@ class ModelServer:
                 data = self._lookup(url)
                 data = data if isinstance(data, SBytes) else SBytes(data)
                 status = 200
+            if status == 206:
+                hdrs["Content-Range"] = f"bytes {a}-{a + len(data) - 1}/{total}"
+        hdrs["Content-Length"] = str(len(data))
         content = data.concrete() if data.is_concrete() else data
-        return Response(status, content, url)
+        r = Response(status, content, url)
+        r.headers.update(hdrs)
+        return r
 
 
 def make_requests(server):
